@@ -9,6 +9,8 @@ import (
 	"runtime"
 	"sync"
 
+	segment "github.com/blevesearch/scorch_segment_api/v2"
+
 	"verif/harness/model"
 	"verif/harness/oracle"
 	"verif/harness/zx"
@@ -122,9 +124,10 @@ func drawHistory(rng *rand.Rand, i int) []string {
 func runHistory(c *Ctx, r *oracle.Report, id string, rng *rand.Rand, kinds []string, batches []*model.Batch, mode uint32, countPool bool) {
 	prev := "start"
 	images := map[int][]byte{}
+	written := map[int]uint64{}
 	defer func() {
 		if countPool {
-			compareWithFreshBuilder(r, id, kinds, batches, images)
+			compareWithFreshBuilder(r, id, kinds, batches, images, written)
 		}
 	}()
 	for k, b := range batches {
@@ -154,6 +157,9 @@ func runHistory(c *Ctx, r *oracle.Report, id string, rng *rand.Rand, kinds []str
 				var buf bytes.Buffer
 				if _, err := writeTo(seg, &buf); err == nil {
 					images[k] = buf.Bytes()
+					if ds, ok := seg.(segment.DiskStatsReporter); ok {
+						written[k] = ds.BytesWritten()
+					}
 				}
 			}
 			m := model.Build(b)
@@ -331,11 +337,15 @@ func fieldRecordsStart(img []byte) (uint64, bool) {
 // has never been used (two collections empty the pool; the pool hook confirms
 // that a new builder was made) and the two images are compared: same length,
 // same footer offsets, same bytes in front of the per-field records.
-func compareWithFreshBuilder(r *oracle.Report, id string, kinds []string, batches []*model.Batch, images map[int][]byte) {
+func compareWithFreshBuilder(r *oracle.Report, id string, kinds []string, batches []*model.Batch, images map[int][]byte, written map[int]uint64) {
 	done := 0
-	for k := len(batches) - 1; k >= 0 && done < 3; k-- {
+	for k := len(batches) - 1; k >= 0; k-- {
 		img, ok := images[k]
 		if !ok {
+			continue
+		}
+		// the last three comparable builds, and every empty batch
+		if done >= 3 && len(batches[k].Docs) > 0 {
 			continue
 		}
 		done++
@@ -343,6 +353,7 @@ func compareWithFreshBuilder(r *oracle.Report, id string, kinds []string, batche
 		runtime.GC()
 		before, _ := zx.PoolStats()
 		var ref []byte
+		var refWritten uint64
 		guard(r, id+" reference build", func() {
 			seg, _, err := zx.Build(batches[k])
 			if err != nil {
@@ -352,6 +363,9 @@ func compareWithFreshBuilder(r *oracle.Report, id string, kinds []string, batche
 			var buf bytes.Buffer
 			if _, err := writeTo(seg, &buf); err == nil {
 				ref = buf.Bytes()
+				if ds, ok := seg.(segment.DiskStatsReporter); ok {
+					refWritten = ds.BytesWritten()
+				}
 			}
 		})
 		after, _ := zx.PoolStats()
@@ -377,6 +391,9 @@ func compareWithFreshBuilder(r *oracle.Report, id string, kinds []string, batche
 				d++
 			}
 			r.Fail("trace-bytes", "%s: the image built in this history differs from the one built on a fresh builder at byte %d of %d", tag, d, sa)
+		}
+		if w, ok := written[k]; ok && w != refWritten {
+			r.Fail("trace-stat", "%s/build%d(%s): BytesWritten() %d when built in this history, %d on a fresh builder", id, k, kinds[k], w, refWritten)
 		}
 		r.Inc("images_compared_with_fresh_builder", 1)
 		r.Inc("image_bytes_compared_with_fresh_builder", int64(sa))
